@@ -26,7 +26,25 @@ def specs():
     """per class: constructor, base config, concrete strings for every abstract expect kind / input kind"""
     from mitxgraders import (StringGrader, FormulaGrader, NumericalGrader, MatrixGrader, SingleListGrader,
                              IntervalGrader, RandomFunction)
+    from mitxgraders import DiscreteSet
+    from mitxgraders.helpers.calc import MathArray
+    import numpy as np
+
+    def dbl(a):                      # an author's function that works in place on what it is handed
+        np.multiply(a, 2, out=a)
+        return a
+
+    def unit(v):
+        v[:] = v / np.linalg.norm(v)
+        return v
     return {
+        'MatrixGrader+inplace-function': dict(
+            cls=MatrixGrader,
+            base=lambda: {'variables': ['x', 'M'], 'samples': 2, 'user_functions': {'dbl': dbl, 'unit': unit},
+                          'sample_from': {'M': DiscreteSet((MathArray([[1., 2.], [3., 4.]]), MathArray([[0., 1.], [1., 0.]])))},
+                          'user_constants': {'V': MathArray([3., 4.])}},
+            e1='dbl(M)+0*x', e2='5*unit(V)+[x,x]', badCheck='dbl(M)+',
+            right1='2*M', right2='V+[x,x]', wrong='M+unit(V)*unit(V)', malformed='dbl(M'),
         'FormulaGrader+RandomFunction': dict(
             cls=FormulaGrader, base=lambda: {'variables': ['x'], 'samples': 2, 'user_functions': {'h': RandomFunction()},
                                              'user_constants': {'c0': 2.5}},
@@ -133,9 +151,30 @@ def make(spec, configured, debug):
 OPAQUE = ('subgrader', 'user_functions')
 
 
+def freeze(v, depth=0):
+    """value snapshot that compares with ==: containers become tuples, arrays their shape and entries, library objects
+    with a configuration (sampling sets, graders) their class and frozen configuration, functions their identity"""
+    import numpy as np
+    if depth > 12:
+        return ('deep', id(v))
+    if isinstance(v, np.ndarray):
+        return ('array', type(v).__name__, v.shape, repr(v.tolist()))
+    if isinstance(v, dict):
+        return ('dict', tuple(sorted(((repr(k), freeze(x, depth + 1)) for k, x in v.items()), key=lambda kv: kv[0])))
+    if isinstance(v, (list, tuple)):
+        return (type(v).__name__, tuple(freeze(x, depth + 1) for x in v))
+    if isinstance(v, (set, frozenset)):
+        return ('set', tuple(sorted(repr(x) for x in v)))
+    if hasattr(v, 'config') and isinstance(getattr(v, 'config', None), dict):
+        return ('object', type(v).__name__, id(v), freeze(v.config, depth + 1))
+    if callable(v):
+        return ('callable', id(v))
+    return ('value', type(v).__name__, repr(v))
+
+
 def snapshot_cfg(cfg):
-    """deep copy of the author's configuration; grader / function objects are compared by identity"""
-    return {k: (copy.deepcopy(v) if k not in OPAQUE else (id(v), sorted(v) if isinstance(v, dict) else None))
+    """value snapshot of the author's configuration; grader / function objects are compared by identity"""
+    return {k: (freeze(v) if k not in OPAQUE else (id(v), sorted(v) if isinstance(v, dict) else None))
             for k, v in cfg.items()}
 
 
